@@ -135,6 +135,16 @@ check(
     "DESIGN.md section 3, C14",
 )
 
+check(
+    "C15",
+    "fault-injection style workload (one structural rule broken per probe) with an exception-vs-object oracle; termination decided by a logical line budget counted with sys.monitoring",
+    "Thirteen breaking operators are applied at random positions of valid instances of all archetypes; each probe must be answered with an error at "
+    "construction, or be non-generable and raise on generate, or raise on generate, as the rule demands. Byte-level mutants of valid strings are parsed by "
+    "all five constructors under a budget of executed library lines (100x the valid string's count + 50000), which decides termination without wall clock.",
+    "Held on the probes made. Any exception type counts as rejection; operators are constructed so that the broken string violates the stated rule.",
+    "DESIGN.md section 3, C15",
+)
+
 ALL = [f"C{i:02d}" for i in range(1, 21)]
 
 
